@@ -713,6 +713,45 @@ def r_void_tag(m, rnd):
         yield 'union', apply
 
 
+@rule('nullable_alias_of_void')
+def r_nullable_void_alias(m, rnd):
+    """Void cannot be marked nullable, also when it is named through an alias."""
+    for ctx, hg, attr, steps, t in type_slots(m):
+        h = hg(m)
+        hns = getattr(h, 'ns', None)
+        if hns is None or steps or not ctx.startswith(('route_', 'alias')):
+            continue
+
+        def apply(m2, hg=hg, attr=attr, hns=hns):
+            nsd = m2.ns(hns)
+            h2 = hg(m2)
+            nsd.defs.append(AliasDef(name='VoidAlias999', ns=hns, doc=None, type=prim('Void'), anns=[]))
+            setattr(h2, attr, ref(hns, 'VoidAlias999', nullable=True))
+            if getattr(h2, 'kind', None) == 'alias':
+                h2.anns = []
+        yield ctx, apply
+    for fpath, d, f in fields_of(m):
+        if f.type is None or f.default is not None:
+            continue
+
+        def apply2(m2, fpath=fpath, d=d):
+            m2.ns(d.ns).defs.append(AliasDef(name='VoidAlias999', ns=d.ns, doc=None, type=prim('Void'), anns=[]))
+            f2 = getf(m2, fpath)
+            f2.type = ref(d.ns, 'VoidAlias999', nullable=True)
+            f2.anns = []
+        yield d.kind + '_field', apply2
+
+
+@rule('annotation_type_qualified_with_own_namespace')
+def r_ann_own_ns(m, rnd):
+    """A namespace is not imported into itself: `ns.Type` inside ns does not resolve."""
+    for path, d in defs(m, ('annotation',)):
+        if not isinstance(d.atype, str) and d.atype[1] == d.ns:
+            def apply(m2, path=path):
+                getd(m2, path).qualify_own = True
+            yield 'custom_annotation', apply
+
+
 @rule('void_nullable')
 def r_void_nullable(m, rnd):
     for path, d in defs(m, ('route',)):
